@@ -3,6 +3,7 @@
    object API executed symbolically on the real backend (gen/ObjApi*.v).  Mixed backends: correspondence (evidence). *)
 From Coq Require Import ZArith List Bool.
 From VP Require Import Lib ULib Totality ObjModel ObjNames ObjApi ObjApiBin ObjChecks ObjChecksBin.
+From VP Require NbModel NpApi NpChecks.
 
 (* every operation is defined for every coordinate system of its operands: all 82 dispatch tables have a well-formed
    entry (arity and declared return shape fit) for every signature of the lattice, 12 Euler orders included *)
@@ -33,6 +34,14 @@ Proof. vm_compute. split; reflexivity. Qed.
 (* rotate_nautical(yaw,pitch,roll) = rotate_euler(roll,pitch,yaw,"zyx"); the order is case-insensitive; default "zxz" *)
 Theorem C05_rotation_spellings : forallb check_rotation_spellings unary_tab = true.
 Proof. vm_compute. reflexivity. Qed.
+
+
+(* NumPy operands (T6 table): the result is a NumPy vector array whenever a counted operand is a NumPy array (the axis of
+   rotate_axis does not count: object.rotate_axis(numpy axis) stays an object vector), and its class, flavor, dimension and
+   coordinate system are the object backend's (np_agree) *)
+Theorem C05_numpy_result_backend_and_type :
+  forallb VP.NpChecks.np_backend_ok VP.NpApi.np_tab = true /\ forallb VP.NpChecks.np_agree VP.NpApi.np_tab = true.
+Proof. vm_cast_no_check (conj (eq_refl true) (eq_refl true)). Qed.
 
 Example C05_nonvacuous : Nat.ltb 10000 (length binary_tab) = true /\ Nat.ltb 3000 (length operator_pairs) = true /\
   existsb (fun e => match e with (_, _, _, OutRaise _) => true | _ => false end) binary_tab = true.
